@@ -12,12 +12,20 @@ import YaegiVerif.Proofs.C19Track
        semantics of closures, every breakpoint set, every sequence of resume requests without
        terminate, and every value of the facts read from the source;
    (2) the session ends with a terminate event: `terminate_event_last` — full strength;
-   (3) every breakpoint on a node that executes is reported, in order
-       (`breakpoints_reported_full_statement`, `breakpoints_reported_in_order`) — full strength
-       since d1e6c4c (F20: nodes are re-derived by closure object, not by code) and 3d77a98 (F19-1:
-       the forwarding closures of back edges are recorded on their node): for every graph and
-       every program that follows its edges; `f20_regression`, `f19_1_regression` are the former
-       witnesses, `f20_old_facts`, `f19_1_old_facts` reproduce the old behaviour from the old facts.
+   (3) a breakpoint is reported once each time an activation enters its line, before anything on
+       the line runs (`breakpoints_reported_full_statement`, `breakpoints_reported_in_order`: the
+       break stops are those of the line-level reference `refRun`; `ref_reports_on_entering`,
+       `ref_silent_within_line`, `ref_previous_step` spell the reference out) — full strength, for
+       every graph and every program that follows its edges: since d1e6c4c (F20) and 3d77a98 (F19-1)
+       the debugger knows which node executes (`debug_eq_reference`), since 0a3a691 (F19-2 … F19-7)
+       every step of a requested line that is on a path of a control-flow graph carries the
+       breakpoint (`placeSteps_sound`, `placeSteps_complete`) and it is reported on entering the
+       line. The former witnesses are regression examples (`f20_regression`, `f19_1_regression`,
+       `jump_line_regression`, `for_clause_regression`, `tagless_case_regression`,
+       `panic_line_regression`, `signature_line_regression`); the model run with the facts of the
+       older code reproduces the findings (`…_old_facts`, and the `preLineF` halves).
+       Not proved: that every node that executes is in `cfgNodes` (the correspondence compares, on
+       every case, the marks-based reference with a reference that reads requested *lines* only).
 -/
 namespace YaegiVerif.Props.C19
 open YaegiVerif YaegiVerif.Debug YaegiVerif.Proofs.C19
@@ -36,7 +44,8 @@ theorem source_tie : Generated.C19.sourceHashes = Expected.C19.sourceHashes := b
 def expF : LoopFacts := LoopFacts.ofRaw Expected.C19.facts
 def genF : LoopFacts := LoopFacts.ofRaw Generated.C19.facts
 
-theorem expF_val : expF = ⟨false, [.tnext, .fnext], true, true, true, .gt, .ge⟩ := by decide
+theorem expF_val : expF = ⟨false, [.tnext, .fnext], true, true, true, .gt, .ge, true, true, true,
+    ["breakStmt", "continueStmt", "fallthroughStmt", "gotoStmt"], ["funcType", "constDecl", "varDecl"]⟩ := by decide
 theorem genF_eq : genF = expF := by unfold genF expF; rw [facts_tie]
 
 /-! ### (1) the debugger never changes what executes -/
@@ -73,9 +82,9 @@ theorem debug_outcome_eq_plain (S : Setup) (P : Prog σ) (st : σ) (cmds : List 
   rw [(debug_exec_sequence_eq_plain S P st cmds n h).2.2.1]; exact hp
 
 /-- the model parameters regenerated from the source are covered too (the statement holds for every `S`) -/
-theorem debug_exec_sequence_eq_plain_generated (g : Graph) (mk : Nat → Bool) (P : Prog σ) (st : σ)
+theorem debug_exec_sequence_eq_plain_generated (g : Graph) (mk mc : Nat → Bool) (P : Prog σ) (st : σ)
     (cmds : List Cmd) (n : Nat) (h : Cmd.terminate ∉ cmds) :
-    (drun ⟨genF, g, mk, false⟩ P n (DCfg.init st cmds)).trace = (prun P n (PCfg.init st)).trace :=
+    (drun ⟨genF, g, mk, mc, false⟩ P n (DCfg.init st cmds)).trace = (prun P n (PCfg.init st)).trace :=
   (debug_exec_sequence_eq_plain _ P st cmds n h).1
 
 /-! ### (2) events of a session -/
@@ -169,17 +178,19 @@ theorem depth_counts_activations (S : Setup) (P : Prog σ) (st : σ) (cmds : Lis
   | nil => rfl
   | cons c cs => simp [apply_depth, Dbg.init]
 
-/-! ### (3) breakpoints are reported in execution order -/
+/-! ### (3) breakpoints are reported when control enters their line -/
 
-/-- the full statement: the nodes of the break events are the marked nodes (with a position) among
-    the owners of the executed closures, in order — for every graph whose data is well formed
-    (`idSeparates`: two successors of a node are not represented by one closure object) and every
-    program that runs on it (`Respects`; without it `P` and `g` are unrelated) -/
+/-- the full statement: the break stops of the debugger are those of the line-level reference
+    `refRun` (it is told which node executes; per activation, **a marked node is reported when the
+    activation enters its line — first step, step after a step of another line, or the same node
+    again — before it runs, and not again while the activation stays on the line**; a function
+    breakpoint whenever its node is about to run), in order — for every graph whose data is well
+    formed (`idSeparates`) and every program that runs on it (`Respects`) -/
 def breakpoints_reported_full_statement : Prop :=
-  ∀ (σ : Type) (g : Graph) (mk : Nat → Bool) (P : Prog σ) (st : σ) (cmds : List Cmd) (n : Nat),
+  ∀ (σ : Type) (g : Graph) (mk mc : Nat → Bool) (P : Prog σ) (st : σ) (cmds : List Cmd) (n : Nat),
     idSeparates g = true → Respects g P → Cmd.terminate ∉ cmds →
-    brkNodes (drun ⟨expF, g, mk, false⟩ P n (DCfg.init st cmds)).events
-      = expected ⟨expF, g, mk, false⟩ (drun ⟨expF, g, mk, false⟩ P n (DCfg.init st cmds)).trace
+    brkNodes (drun ⟨expF, g, mk, mc, false⟩ P n (DCfg.init st cmds)).events
+      = (refRun ⟨expF, g, mk, mc, false⟩ (drun ⟨expF, g, mk, mc, false⟩ P n (DCfg.init st cmds)).log).out
 
 theorem init_noterm (st : σ) (cmds : List Cmd) (h : Cmd.terminate ∉ cmds) : NoTerm (DCfg.init st cmds) := by
   unfold NoTerm DCfg.init
@@ -193,56 +204,92 @@ theorem init_noterm (st : σ) (cmds : List Cmd) (h : Cmd.terminate ∉ cmds) : N
     step of every session: for every graph — successors made by the same generator (F20) and back
     edges taken through forwarding closures (F19-1) included — and every program that follows its
     edges. -/
-theorem tracked_node_is_executing_node (g : Graph) (mk : Nat → Bool) (P : Prog σ) (st : σ) (cmds : List Cmd)
+theorem tracked_node_is_executing_node (g : Graph) (mk mc : Nat → Bool) (P : Prog σ) (st : σ) (cmds : List Cmd)
     (n : Nat) (hid : idSeparates g = true) (hR : Respects g P) :
-    ∀ fr ∈ (drun ⟨expF, g, mk, false⟩ P n (DCfg.init st cmds)).stack, fr.m = some fr.cur.owner :=
-  drun_track ⟨expF, g, mk, false⟩ P n (DCfg.init st cmds) (by rw [expF_val]) (by rw [expF_val]) (by rw [expF_val])
+    ∀ fr ∈ (drun ⟨expF, g, mk, mc, false⟩ P n (DCfg.init st cmds)).stack, fr.m = some fr.cur.owner :=
+  drun_track ⟨expF, g, mk, mc, false⟩ P n (DCfg.init st cmds) (by rw [expF_val]) (by rw [expF_val]) (by rw [expF_val])
     (by rw [expF_val]) hid hR (by intro fr hfr; simp [DCfg.init] at hfr)
 
 /-- **The debugger is the reference debugger**: when the closures follow the edges of the graph
-    (`Respects`), the whole configuration — tracked nodes, events with reasons, nodes and step
-    counts, mode — is at every step the one of the debugger that is told which node executes.
-    (Before d1e6c4c and 3d77a98 this needed `codeSeparates g` and excluded forwarding closures.) -/
-theorem debug_eq_reference (g : Graph) (mk : Nat → Bool) (P : Prog σ) (st : σ) (cmds : List Cmd)
+    (`Respects`), the whole configuration — tracked nodes, previous steps of the frames, events
+    with reasons, nodes and step counts, mode, log — is at every step the one of the debugger that is
+    told which node executes. -/
+theorem debug_eq_reference (g : Graph) (mk mc : Nat → Bool) (P : Prog σ) (st : σ) (cmds : List Cmd)
     (n : Nat) (hid : idSeparates g = true) (hR : Respects g P) :
-    drun ⟨expF, g, mk, false⟩ P n (DCfg.init st cmds) = drun ⟨expF, g, mk, true⟩ P n (DCfg.init st cmds) := by
-  have := drun_ideal ⟨expF, g, mk, false⟩ P n (DCfg.init st cmds) rfl (by rw [expF_val]) (by rw [expF_val])
+    drun ⟨expF, g, mk, mc, false⟩ P n (DCfg.init st cmds) = drun ⟨expF, g, mk, mc, true⟩ P n (DCfg.init st cmds) := by
+  have := drun_ideal ⟨expF, g, mk, mc, false⟩ P n (DCfg.init st cmds) rfl (by rw [expF_val]) (by rw [expF_val])
     (by rw [expF_val]) (by rw [expF_val]) hid hR (by intro fr hfr; simp [DCfg.init] at hfr)
   exact this.symm
 
-/-- **Every breakpoint on a node that executes is reported, in execution order, and nothing else is
-    reported as a breakpoint**, for every graph, every program that follows its edges, every
-    breakpoint set and every request sequence without terminate. -/
-theorem breakpoints_reported_in_order (g : Graph) (mk : Nat → Bool) (P : Prog σ) (st : σ)
+theorem refRun_ideal (S : Setup) (log : List LogItem) : refRun S.toIdeal log = refRun S log := rfl
+
+/-- the debugger that is told which node executes makes exactly the break stops of the line-level
+    reference, for every program (no side condition) -/
+theorem reference_is_line_level (g : Graph) (mk mc : Nat → Bool) (P : Prog σ) (st : σ) (cmds : List Cmd)
+    (n : Nat) (h : Cmd.terminate ∉ cmds) :
+    brkNodes (drun ⟨expF, g, mk, mc, true⟩ P n (DCfg.init st cmds)).events
+      = (refRun ⟨expF, g, mk, mc, true⟩ (drun ⟨expF, g, mk, mc, true⟩ P n (DCfg.init st cmds)).log).out :=
+  ((drun_ref ⟨expF, g, mk, mc, true⟩ P n (DCfg.init st cmds) rfl (by rw [expF_val])
+    (init_noterm st cmds h) (by
+      refine ⟨rfl, rfl, ?_, ?_⟩
+      · intro fr hfr; simp [DCfg.init] at hfr
+      · intro _ fr rest e; simp [DCfg.init] at e)).2.1).symm
+
+/-- **One break stop per visit of a line, before the line runs**: the break stops of the debugger
+    are, in order, those of the line-level reference — for every graph, every program that follows
+    its edges, every set of line and function breakpoints and every request sequence without
+    terminate. -/
+theorem breakpoints_reported_in_order (g : Graph) (mk mc : Nat → Bool) (P : Prog σ) (st : σ)
     (cmds : List Cmd) (n : Nat) (hid : idSeparates g = true) (hR : Respects g P)
     (h : Cmd.terminate ∉ cmds) :
-    brkNodes (drun ⟨expF, g, mk, false⟩ P n (DCfg.init st cmds)).events
-      = expected ⟨expF, g, mk, false⟩ (drun ⟨expF, g, mk, false⟩ P n (DCfg.init st cmds)).trace := by
-  rw [debug_eq_reference g mk P st cmds n hid hR]
-  have := drun_brk ⟨expF, g, mk, true⟩ P n (DCfg.init st cmds) rfl (by rw [expF_val])
-    (init_noterm st cmds h) (by simp [BrkInv, DCfg.init, brkNodes, expected])
-  exact this
+    brkNodes (drun ⟨expF, g, mk, mc, false⟩ P n (DCfg.init st cmds)).events
+      = (refRun ⟨expF, g, mk, mc, false⟩ (drun ⟨expF, g, mk, mc, false⟩ P n (DCfg.init st cmds)).log).out := by
+  rw [debug_eq_reference g mk mc P st cmds n hid hR]
+  exact reference_is_line_level g mk mc P st cmds n h
 
 /-- the full statement holds -/
 theorem breakpoints_reported_full_statement_holds : breakpoints_reported_full_statement :=
-  fun _ g mk P st cmds n hid hR h => breakpoints_reported_in_order g mk P st cmds n hid hR h
+  fun _ g mk mc P st cmds n hid hR h => breakpoints_reported_in_order g mk mc P st cmds n hid hR h
 
 /-- the same for the parameters regenerated from the source -/
-theorem breakpoints_reported_in_order_generated (g : Graph) (mk : Nat → Bool) (P : Prog σ) (st : σ)
+theorem breakpoints_reported_in_order_generated (g : Graph) (mk mc : Nat → Bool) (P : Prog σ) (st : σ)
     (cmds : List Cmd) (n : Nat) (hid : idSeparates g = true) (hR : Respects g P)
     (h : Cmd.terminate ∉ cmds) :
-    brkNodes (drun ⟨genF, g, mk, false⟩ P n (DCfg.init st cmds)).events
-      = expected ⟨genF, g, mk, false⟩ (drun ⟨genF, g, mk, false⟩ P n (DCfg.init st cmds)).trace := by
-  rw [genF_eq]; exact breakpoints_reported_in_order g mk P st cmds n hid hR h
+    brkNodes (drun ⟨genF, g, mk, mc, false⟩ P n (DCfg.init st cmds)).events
+      = (refRun ⟨genF, g, mk, mc, false⟩ (drun ⟨genF, g, mk, mc, false⟩ P n (DCfg.init st cmds)).log).out := by
+  rw [genF_eq]; exact breakpoints_reported_in_order g mk mc P st cmds n hid hR h
 
-/-- the reference debugger reports exactly the marked nodes that execute, for every program
-    (no side condition) -/
-theorem reference_reports_all (g : Graph) (mk : Nat → Bool) (P : Prog σ) (st : σ) (cmds : List Cmd)
-    (n : Nat) (h : Cmd.terminate ∉ cmds) :
-    brkNodes (drun ⟨expF, g, mk, true⟩ P n (DCfg.init st cmds)).events
-      = expected ⟨expF, g, mk, true⟩ (drun ⟨expF, g, mk, true⟩ P n (DCfg.init st cmds)).trace :=
-  drun_brk ⟨expF, g, mk, true⟩ P n (DCfg.init st cmds) rfl (by rw [expF_val])
-    (init_noterm st cmds h) (by simp [BrkInv, DCfg.init, brkNodes, expected])
+/-! #### what the reference does at one step (it is `refStep`; spelled out) -/
+
+/-- a line breakpoint on a node with a position is reported when the activation enters the line:
+    no step executed yet, the previous step is on another line, or it is this very node -/
+theorem ref_reports_on_entering (g : Graph) (mk mc : Nat → Bool) (p : Option Nat) (rest : List (Option Nat))
+    (out : List (Option Nat)) (o : Nat) (hv : g.posValid o = true) (hm : mk o = true)
+    (he : p = none ∨ p = some o ∨ ∃ q, p = some q ∧ g.line q ≠ g.line o) :
+    (refStep ⟨expF, g, mk, mc, true⟩ ⟨p :: rest, out⟩ (.exec o)).out = some o :: out := by
+  have : entersLine g p o = true := by
+    unfold entersLine
+    rcases he with e | e | ⟨q, e, hq⟩
+    · simp [e]
+    · simp [e]
+    · simp [e, hq]
+  simp [refStep, Setup.hit, hv, hm, this]
+
+/-- and not again while the activation stays on the line (unless the node carries a function
+    breakpoint) -/
+theorem ref_silent_within_line (g : Graph) (mk mc : Nat → Bool) (q : Nat) (rest : List (Option Nat))
+    (out : List (Option Nat)) (o : Nat) (hc : mc o = false) (hne : q ≠ o) (hl : g.line q = g.line o) :
+    (refStep ⟨expF, g, mk, mc, true⟩ ⟨some q :: rest, out⟩ (.exec o)).out = out := by
+  have : entersLine g (some q) o = false := by simp [entersLine, hne, hl]
+  simp [refStep, Setup.hit, hc, this, expF_val]
+
+/-- the previous step of an activation is the last node it executed that is a step (join points of
+    compound statements and nodes without position do not count) -/
+theorem ref_previous_step (g : Graph) (mk mc : Nat → Bool) (p : Option Nat) (rest : List (Option Nat))
+    (out : List (Option Nat)) (o : Nat) :
+    (refStep ⟨expF, g, mk, mc, true⟩ ⟨p :: rest, out⟩ (.exec o)).stack =
+      (if isStep expF g o then some o else p) :: rest := by
+  simp [refStep, Setup.bumpPrev, expF_val]
 
 /-! ### regression examples for the repaired findings (F20: d1e6c4c, F19-1: 3d77a98) -/
 
@@ -285,26 +332,27 @@ theorem ifElse_respects : Respects ifElseGraph ifElseProg := by
 
 /-- the facts of the unchanged code -/
 def oldF : LoopFacts := LoopFacts.ofRaw Expected.C19.factsBeforeRepair
-theorem oldF_val : oldF = ⟨false, [.tnext, .fnext], false, false, false, .gt, .ge⟩ := by decide
+theorem oldF_val : oldF = ⟨false, [.tnext, .fnext], false, false, false, .gt, .ge, false, false, false,
+    ["absent"], ["absent"]⟩ := by decide
 
 /-- **F20 repaired**: with breakpoints on both arms and the condition false, the else arm (node 3)
     executes and is reported. The graph is outside the old domain (`codeSeparates` fails) and
     inside the hypotheses of the theorem. -/
 theorem f20_regression :
-    let S : Setup := ⟨expF, ifElseGraph, bothArms, false⟩
+    let S : Setup := ⟨expF, ifElseGraph, bothArms, fun _ => false, false⟩
     let d := drun S ifElseProg 8 (DCfg.init 0 [.cont])
     d.ctl = .halt false ∧
     d.trace.reverse.map (·.owner) = [1, 3, 4] ∧
-    expected S d.trace = [some 3] ∧
+    (refRun S d.log).out = [some 3] ∧
     brkNodes d.events = [some 3] ∧
     codeSeparates ifElseGraph = false ∧ idSeparates ifElseGraph = true := by decide
 
 /-- the same input with the facts of the unchanged code reproduces F20: the then arm (node 2) is
     reported, the else arm, which executes, is missed -/
 theorem f20_old_facts :
-    let S : Setup := ⟨oldF, ifElseGraph, bothArms, false⟩
+    let S : Setup := ⟨oldF, ifElseGraph, bothArms, fun _ => false, false⟩
     let d := drun S ifElseProg 8 (DCfg.init 0 [.cont])
-    d.trace.reverse.map (·.owner) = [1, 3, 4] ∧ expected S d.trace = [some 3] ∧ brkNodes d.events = [some 2] := by
+    d.trace.reverse.map (·.owner) = [1, 3, 4] ∧ brkNodes d.events = [some 2] := by
   decide
 
 /-- `for x < 2 { x++ }`: node 1 the condition, node 2 the body, node 3 the exit. The closure of the
@@ -342,25 +390,25 @@ theorem loop_respects : Respects loopGraph loopProg := by
 /-- **F19-1 repaired**: a breakpoint on the loop condition is reported at every iteration, the
     back edge being taken through the forwarding closure -/
 theorem f19_1_regression :
-    let S : Setup := ⟨expF, loopGraph, fun i => i == 1, false⟩
+    let S : Setup := ⟨expF, loopGraph, fun i => i == 1, fun _ => false, false⟩
     let d := drun S loopProg 12 (DCfg.init (0, 0) [.cont])
     d.ctl = .halt false ∧
     d.trace.reverse.map (·.owner) = [1, 2, 1, 2, 1, 3] ∧
-    expected S d.trace = [some 1, some 1, some 1] ∧
+    (refRun S d.log).out = [some 1, some 1, some 1] ∧
     brkNodes d.events = [some 1, some 1, some 1] ∧
     idSeparates loopGraph = true := by decide
 
 /-- stepping through the same loop: every stop has the node that executes -/
 theorem f19_1_step_regression :
-    let S : Setup := ⟨expF, loopGraph, fun _ => false, false⟩
+    let S : Setup := ⟨expF, loopGraph, fun _ => false, fun _ => false, false⟩
     let d := drun S loopProg 12 (DCfg.init (0, 0) (List.replicate 10 (.step .into)))
     d.events.reverse.map (·.node) = [some 1, some 2, some 1, some 2, some 1, some 3] := by decide
 
 /-- the same input with the facts of the unchanged code reproduces F19-1: the breakpoint is reported
     on the first iteration only, and stepping stops without a node after each back edge -/
 theorem f19_1_old_facts :
-    brkNodes (drun ⟨oldF, loopGraph, fun i => i == 1, false⟩ loopProg 12 (DCfg.init (0, 0) [.cont])).events = [some 1] ∧
-    (drun ⟨oldF, loopGraph, fun _ => false, false⟩ loopProg 12
+    brkNodes (drun ⟨oldF, loopGraph, fun i => i == 1, fun _ => false, false⟩ loopProg 12 (DCfg.init (0, 0) [.cont])).events = [some 1] ∧
+    (drun ⟨oldF, loopGraph, fun _ => false, fun _ => false, false⟩ loopProg 12
         (DCfg.init (0, 0) (List.replicate 10 (.step .into)))).events.reverse.map (·.node)
       = [some 1, some 2, none, some 2, none, some 3] := by decide
 
@@ -371,39 +419,52 @@ theorem f19_1_old_facts :
     through a forwarding closure — the two shapes the unchanged code got wrong -/
 theorem hyps_nonempty :
     (idSeparates ifElseGraph = true ∧ Respects ifElseGraph ifElseProg ∧
-      brkNodes (drun ⟨expF, ifElseGraph, bothArms, false⟩ ifElseProg 8 (DCfg.init 0 [.cont])).events = [some 3]) ∧
+      brkNodes (drun ⟨expF, ifElseGraph, bothArms, fun _ => false, false⟩ ifElseProg 8 (DCfg.init 0 [.cont])).events = [some 3]) ∧
     (idSeparates loopGraph = true ∧ Respects loopGraph loopProg ∧
-      brkNodes (drun ⟨expF, loopGraph, fun i => i == 1, false⟩ loopProg 12 (DCfg.init (0, 0) [.cont])).events
+      brkNodes (drun ⟨expF, loopGraph, fun i => i == 1, fun _ => false, false⟩ loopProg 12 (DCfg.init (0, 0) [.cont])).events
         = [some 1, some 1, some 1]) :=
   ⟨⟨by decide, ifElse_respects, by decide⟩, ⟨by decide, loop_respects, by decide⟩⟩
 
-/-! ### open findings: what a *line* request gets (F19-3 … F19-6)
+/-! ### regression examples for the line-level findings F19-3 … F19-7 (0a3a691)
 
-The theorems above are about marked *nodes*. Which node `SetBreakpoints` marks for a requested line
-(`place`: the first node in walk order that has a position, an action and a closure) is where the
-remaining divergences are: the marked node is the outermost node of the line, which executes last. -/
+`SetBreakpoints` marked the first node of the line in walk order that has an action and a closure —
+the outermost node, which executes last. It now marks every step of the line that is on a path of a
+control-flow graph (`placeLine`), and the debugger reports when an activation enters the line.
+Each example is run twice: with today's facts, and with the facts before 0a3a691 (`preLineF`), which
+reproduce the finding. -/
+
+/-- the facts before 0a3a691 -/
+def preLineF : LoopFacts := LoopFacts.ofRaw Expected.C19.factsBeforeLineRepair
 
 /-- lines of the executed nodes, in execution order -/
 def linesExecuted (g : Graph) (d : DCfg σ) : List Nat := d.trace.reverse.map fun c => g.line c.owner
 
+/-- a session with line requests `rs`: marks as `SetBreakpoints` places them, then `drun` -/
+def lineSession (F : LoopFacts) (g : Graph) (rs : List BpReq) (P : Prog σ) (st : σ) (n : Nat) : DCfg σ :=
+  let marks := placeLine F g 0 rs
+  drun ⟨F, g, fun i => marks.contains i, fun _ => false, false⟩ P n (DCfg.init st [.cont])
+
+/-- (node, step) of the stops -/
+def stopsOf (d : DCfg σ) : List (Option Nat × Nat) := d.events.reverse.map fun e => (e.node, e.step)
+
 /-- `if x == 2 { continue }`: node 1 the condition (line 9), node 2 the `continue` statement
     (line 10): it has a position and a closure (it executes), and no action (`aNop`) -/
 def jumpGraph : Graph := #[
-  { children := [1, 2, 3] },
-  { code := 10, clo := 101, tnext := some 2, fnext := some 3, line := 9, posValid := true, isNop := false, parent := some 0 },
-  { code := 20, clo := 201, tnext := some 3, line := 10, posValid := true, isNop := true, parent := some 0 },
-  { code := 30, clo := 301, line := 7, posValid := true, parent := some 0 } ]
+  { children := [1, 2, 3], start := some 1 },
+  { code := 10, clo := 101, tnext := some 2, fnext := some 3, line := 9, posValid := true, isNop := false, parent := some 0, kind := "binaryExpr" },
+  { code := 20, clo := 201, tnext := some 3, line := 10, posValid := true, isNop := true, parent := some 0, kind := "continueStmt" },
+  { code := 30, clo := 301, line := 7, posValid := true, parent := some 0, kind := "forStmt" } ]
 
-/-- **F19-3** (open): a line that holds only a `break`, `continue`, `goto` or bare `return` gets no
-    breakpoint: the statement's node executes, but nodes without action are not candidates -/
-theorem jump_line_witness :
-    place jumpGraph 0 [.line 10] = [] ∧ lineCandidate jumpGraph 2 = false ∧
-    jumpGraph.code 2 ≠ 0 ∧ jumpGraph.posValid 2 = true ∧ place jumpGraph 0 [.line 9] = [1] := by decide
+/-- **F19-3 repaired**: the line of a `continue` gets a breakpoint (the statement is a step though it
+    has no action); before, it was refused -/
+theorem jump_line_regression :
+    placeLine expF jumpGraph 0 [.line 10] = [2] ∧ lineValid jumpGraph (placeLine expF jumpGraph 0 [.line 10]) 10 = true ∧
+    placeLine preLineF jumpGraph 0 [.line 10] = [] := by decide
 
 /-- `for i := 0; i < 2; i++ { s += i }`: node 1 `i := 0`, node 2 `i < 2`, node 3 `i++` (all on line
     7, in walk order), node 4 the body (line 8), node 5 the exit -/
 def forClauseGraph : Graph := #[
-  { children := [1, 2, 3, 4, 5] },
+  { children := [1, 2, 3, 4, 5], start := some 1 },
   { code := 10, clo := 101, tnext := some 2, line := 7, posValid := true, isNop := false, parent := some 0 },
   { code := 20, clo := 201, fwd := 299, tnext := some 4, fnext := some 5, line := 7, posValid := true, isNop := false, parent := some 0 },
   { code := 30, clo := 301, tnext := some 2, line := 7, posValid := true, isNop := false, parent := some 0 },
@@ -420,21 +481,26 @@ def forClauseProg : Prog (Nat × Nat) :=
     else if c.owner = 3 then ((st.1, st.2 + 1), .next (some ⟨2, 99, 299⟩))
     else (st, .next none)⟩
 
-/-- **F19-4** (open): a breakpoint on the line of a three-clause `for` is attached to the init
-    statement only: control comes back to line 7 after each iteration (post statement, condition)
-    and nothing is reported -/
-theorem for_clause_witness :
-    let marks := place forClauseGraph 0 [.line 7]
-    let d := drun ⟨expF, forClauseGraph, fun i => marks.contains i, false⟩ forClauseProg 20 (DCfg.init (0, 0) [.cont])
-    marks = [1] ∧ d.ctl = .halt false ∧
+/-- **F19-4 repaired**: a breakpoint on the line of a three-clause `for` is carried by the init
+    statement, the condition and the post statement, and reported once each time control comes to the
+    line: at the init statement, then at the post statement after each iteration — not again at the
+    condition that follows on the same line -/
+theorem for_clause_regression :
+    let d := lineSession expF forClauseGraph [.line 7] forClauseProg (0, 0) 20
+    placeLine expF forClauseGraph 0 [.line 7] = [1, 2, 3] ∧ d.ctl = .halt false ∧
     linesExecuted forClauseGraph d = [7, 7, 8, 7, 7, 8, 7, 7, 10] ∧
-    d.events.reverse.map (fun e => (e.node, e.step)) = [(some 1, 0)] := by decide
+    stopsOf d = [(some 1, 0), (some 3, 3), (some 3, 6)] := by decide
+
+/-- before 0a3a691: the init statement only, once -/
+theorem for_clause_old_facts :
+    placeLine preLineF forClauseGraph 0 [.line 7] = [1] ∧
+    stopsOf (lineSession preLineF forClauseGraph [.line 7] forClauseProg (0, 0) 20) = [(some 1, 0)] := by decide
 
 /-- `switch { case y < 2: x = 1 … }`: node 1 the case clause (line 9: it has an action and a
     closure, and is not on any path of the control-flow graph), node 2 its condition `y < 2`
     (line 9), node 3 the body (line 10), node 4 the exit -/
 def taglessCaseGraph : Graph := #[
-  { children := [1, 4] },
+  { children := [1, 4], start := some 2 },
   { code := 30, clo := 101, line := 9, posValid := true, isNop := false, parent := some 0, children := [2, 3] },
   { code := 10, clo := 201, tnext := some 3, fnext := some 4, line := 9, posValid := true, isNop := false, parent := some 1 },
   { code := 20, clo := 301, tnext := some 4, line := 10, posValid := true, isNop := false, parent := some 1 },
@@ -447,18 +513,19 @@ def taglessCaseProg : Prog Nat :=
     else if c.owner = 3 then (st, .next (some (nodeClo taglessCaseGraph 4)))
     else (st, .next none)⟩
 
-/-- **F19-5** (open): a breakpoint on `case cond:` of a switch without tag is accepted and attached
-    to the case clause node, which never executes: the condition on that line is evaluated (and
-    true) and nothing is reported -/
-theorem tagless_case_witness :
-    let marks := place taglessCaseGraph 0 [.line 9]
-    let d := drun ⟨expF, taglessCaseGraph, fun i => marks.contains i, false⟩ taglessCaseProg 10 (DCfg.init 0 [.cont])
-    marks = [1] ∧ d.ctl = .halt false ∧ linesExecuted taglessCaseGraph d = [9, 10, 8] ∧ d.events = [] := by decide
+/-- **F19-5 repaired**: a breakpoint on `case cond:` of a switch without tag is carried by the
+    condition, which executes, not by the case clause node, which is on no path; before, it was
+    accepted and never reported -/
+theorem tagless_case_regression :
+    placeLine expF taglessCaseGraph 0 [.line 9] = [2] ∧
+    stopsOf (lineSession expF taglessCaseGraph [.line 9] taglessCaseProg 0 10) = [(some 2, 0)] ∧
+    placeLine preLineF taglessCaseGraph 0 [.line 9] = [1] ∧
+    stopsOf (lineSession preLineF taglessCaseGraph [.line 9] taglessCaseProg 0 10) = [] := by decide
 
 /-- `x := bad(2)` where `bad` panics: node 1 the define statement (line 12), node 2 the call (line
     12; operands execute first), node 3 the body of `bad` (line 7) -/
 def panicLineGraph : Graph := #[
-  { children := [1, 3] },
+  { children := [1, 3], start := some 2 },
   { code := 10, clo := 101, line := 12, posValid := true, isNop := false, parent := some 0, children := [2] },
   { code := 20, clo := 201, tnext := some 1, line := 12, posValid := true, isNop := false, parent := some 1 },
   { code := 40, clo := 301, line := 7, posValid := true, isNop := false, parent := some 0 } ]
@@ -470,13 +537,35 @@ def panicLineProg : Prog Nat :=
     else if c.owner = 3 then (st, .panic)
     else (st, .next none)⟩
 
-/-- **F19-6** (open): the node marked for a line is its outermost node, which executes after its
-    operands — calls included. When an operand panics the line has been reached, the callee has
-    run, and the breakpoint was never reported -/
-theorem panic_line_witness :
-    let marks := place panicLineGraph 0 [.line 12]
-    let d := drun ⟨expF, panicLineGraph, fun i => marks.contains i, false⟩ panicLineProg 10 (DCfg.init 0 [.cont])
-    marks = [1] ∧ d.ctl = .halt true ∧ linesExecuted panicLineGraph d = [12, 7] ∧ d.events = [] := by decide
+/-- **F19-6 repaired**: the stop of a breakpoint on `x := bad(2)` comes before the call (step 0: the
+    first node of the line to execute), and is made although `bad` panics; before, the outermost node
+    of the line carried the breakpoint and nothing was reported -/
+theorem panic_line_regression :
+    let d := lineSession expF panicLineGraph [.line 12] panicLineProg 0 10
+    placeLine expF panicLineGraph 0 [.line 12] = [1, 2] ∧ d.ctl = .halt true ∧
+    linesExecuted panicLineGraph d = [12, 7] ∧ stopsOf d = [(some 2, 0)] ∧
+    placeLine preLineF panicLineGraph 0 [.line 12] = [1] ∧
+    stopsOf (lineSession preLineF panicLineGraph [.line 12] panicLineProg 0 10) = [] := by decide
+
+/-- `func (t *T) inc() { t.n++ }` on one line: node 1 the function declaration with its four
+    children — node 2 the receiver, which holds node 6, the `*T` (an action and a closure, on no
+    path), node 3 the name, node 4 the `funcType`, node 5 the body, whose start is node 7, `t.n++` -/
+def signatureGraph : Graph := #[
+  { children := [1] },
+  { children := [2, 3, 4, 5], line := 7, posValid := true, parent := some 0, kind := "funcDecl", func := some "inc", start := some 7 },
+  { children := [6], line := 7, posValid := true, parent := some 1, kind := "fieldList" },
+  { line := 7, posValid := true, parent := some 1, kind := "identExpr" },
+  { line := 7, posValid := true, parent := some 1, kind := "funcType" },
+  { code := 50, clo := 501, children := [7], line := 7, posValid := true, parent := some 1, kind := "blockStmt", start := some 7 },
+  { code := 60, clo := 601, line := 7, posValid := true, isNop := false, parent := some 2, kind := "starExpr" },
+  { code := 70, clo := 701, tnext := some 5, line := 7, posValid := true, isNop := false, parent := some 5, kind := "incDecStmt", start := some 7 } ]
+
+/-- **F19-7 repaired**: on a line that holds a signature and the body, the breakpoint is carried by
+    the statement of the body (reached from the entry point of the function, which `cfgNodes` finds
+    through the `funcType` node), not by the `*T` of the receiver -/
+theorem signature_line_regression :
+    placeLine expF signatureGraph 0 [.line 7] = [7] ∧ placeLine preLineF signatureGraph 0 [.line 7] = [6] ∧
+    cfgNodes expF signatureGraph 0 = [5, 7] := by decide
 
 /-! ### breakpoint placement -/
 
@@ -523,5 +612,23 @@ theorem placeLines_complete (g : Graph) (lines : List Nat) (order seen : List Na
       cases hi with
       | inl e => rw [← e] at hx; exact absurd ⟨hc, hl, hs⟩ hx
       | inr e => exact ih seen e hs
+
+/-- since 0a3a691: a line breakpoint sits on steps of a requested line that are on a path of a
+    control-flow graph … -/
+theorem placeSteps_sound (F : LoopFacts) (g : Graph) (root : Nat) (lines : List Nat) :
+    ∀ i ∈ placeSteps F g root lines, isStep F g i = true ∧ i ∈ cfgNodes F g root ∧ g.line i ∈ lines := by
+  intro i hi
+  unfold placeSteps at hi
+  simp only [List.mem_filter, Bool.and_eq_true, List.contains_iff_mem] at hi
+  exact ⟨hi.2.1.1, hi.2.1.2, hi.2.2⟩
+
+/-- … and on all of them: every such node of the program carries the breakpoint, so whichever of
+    them executes first when control reaches the line reports it -/
+theorem placeSteps_complete (F : LoopFacts) (g : Graph) (root : Nat) (lines : List Nat) (i : Nat)
+    (hw : i ∈ preorder g (walkFuel g) [root]) (hs : isStep F g i = true) (hr : i ∈ cfgNodes F g root)
+    (hl : g.line i ∈ lines) : i ∈ placeSteps F g root lines := by
+  unfold placeSteps
+  simp only [List.mem_filter, Bool.and_eq_true, List.contains_iff_mem]
+  exact ⟨hw, ⟨hs, hr⟩, hl⟩
 
 end YaegiVerif.Props.C19
